@@ -52,6 +52,7 @@ func runC12(seed uint64, n int, tier string, outDir string) []*Stats {
 	redundantCases(r, n, cf, st)
 	mangleCases(r, n/2, cf, st)
 	glueTransform(r, n/2, st, cf)
+	glueBoxFamilies(r, n, st)
 	glueBundle(r, n/3, st)
 	glueLocal(r, n/15, st)
 
